@@ -284,3 +284,14 @@ pub fn contract_v2() -> Box<dyn Contract<Empty>> {
             .with_migrate(migrate),
     )
 }
+
+/// the scripted contract with an explicit Wasm checksum (for instantiate2 address checks)
+pub fn contract_with_checksum(bytes: [u8; 32]) -> Box<dyn Contract<Empty>> {
+    Box::new(
+        ContractWrapper::new(execute, instantiate, query)
+            .with_reply(reply)
+            .with_sudo(sudo)
+            .with_migrate(migrate)
+            .with_checksum(cosmwasm_std::Checksum::from(bytes)),
+    )
+}
